@@ -216,6 +216,8 @@ def run(tier):
         'pure': Rx(x) @ Id(1) >> gates.CX >> Rz(p) @ Ry(y),
         'mixed': gates.Ket(0) >> Ry(x) >> scalar(y, is_mixed=True) @ circuit.Measure(),
         'scalars': scalar(x) @ Rx(y) >> Rz(x),
+        'mixed.complex': gates.Ket(0, 0) >> Rx(x) @ gates.H >> gates.CX >> Rz(x + y) @ Ry(y) >> Rx(y) @ circuit.Discard(),
+        'mixed.measured': gates.Ket(0) >> Rz(x) >> Rx(y) >> circuit.Measure(destructive=False),
     }
     for name, c in circuits.items():
         mixed = c.is_mixed
@@ -226,6 +228,14 @@ def run(tier):
         suite.identity('circuit[%s].subs.commutes' % name, arr(s.eval(mixed=mixed)), sub_arr(c.eval(mixed=mixed), x, z),
                        angle=[z, x, y], extra=(x, y, z), functions=['monoidal.Diagram.subs', 'quantum.circuit.Circuit.eval'],
                        what='substituting then evaluating = evaluating then substituting')
+        # numbers for symbols: the evaluation of the substituted circuit is numeric, the other side stays symbolic until the end
+        num = c.subs([(x, 0.3), (y, 0.7)]).subs(p, 0.2) if name == 'pure' else c.subs([(x, 0.3), (y, 0.7)])
+        sym_side = [sympy.sympify(v).subs([(x, 0.3), (y, 0.7), (p, 0.2)]) for v in arr(c.eval(mixed=mixed))]
+        suite.fact('circuit[%s].subs.numbers.commutes' % name,
+                   bool(numpy.allclose(numpy.array([complex(v) for v in arr(num.eval(mixed=mixed))]),
+                                       numpy.array([complex(sympy.N(v)) for v in sym_side]), atol=1e-9)),
+                   functions=['monoidal.Diagram.subs', 'quantum.circuit.Circuit.eval', 'quantum.cqmap.CQMap.pure'],
+                       what='substituting numbers then evaluating = evaluating symbolically then substituting the numbers')
         lam = c.lambdify(x, y)(0.25, 0.5)
         suite.identity('circuit[%s].lambdify==subs' % name, arr(lam.eval(mixed=mixed)),
                        arr(c.subs([(x, 0.25), (y, 0.5)]).eval(mixed=mixed)), functions=['monoidal.Diagram.lambdify'])
